@@ -426,8 +426,13 @@ class Evaluator:
                 else:
                     self.bind_pat(s['pat'], v, ctx)
                 if s.get('else'):
+                    # `let PAT = v else { diverge }` is `match v { PAT => .., _ => diverge }`: same alt as the match
                     v2, t2 = self.ev(s['else'], ctx)
-                    ts.append(['alt', ('letelse', strip(v)), [('match', ['eps']), ('else', t2)]])
+                    pd = pat_desc(s['pat'])
+                    other = {'Some': 'None', 'None': 'Some', 'Ok': 'Err', 'Err': 'Ok'}.get(pd, '_')
+                    if self.is_err_value(v2) and not _ends_err(t2):
+                        t2 = cat(t2, ['ERR', 'Err value'])
+                    ts.append(['alt', strip(v), [(('pat', pd, pat_ints(s['pat'])), ['eps']), (('pat', other, None), t2)]])
             else:
                 v, t = self.ev(s, ctx)
                 ts.append(t)
@@ -454,6 +459,9 @@ class Evaluator:
         a1 = t1 if not self.is_err_value(v1) or _ends_err(t1) else cat(t1, ['ERR', 'Err value'])
         a2 = t2 if not self.is_err_value(v2) or _ends_err(t2) else cat(t2, ['ERR', 'Err value'])
         if a1 == ['eps'] and a2 == ['eps']:
+            mm = _ifval_minmax(sc, strip(v1), strip(v2))
+            if mm is not None:
+                return (mm, tc)
             return (('ifval', sc, v1, v2), tc)
         if self.is_err_value(v1) or strip(v1) == ('never',):
             val = v2
@@ -710,9 +718,73 @@ class Evaluator:
         if tr == 'WrapperTypeDecode' and name == 'decode_wrapped' and argv and self.is_input(argv[0]):
             u = self.uid.next()
             return (('res', ('decoded', e['ga'][0], u, 'decode_wrapped')), cat(pre, ['dec', e['ga'][0], u, 'decode_wrapped', None]))
+        if name in ('min', 'max') and len(argv) == 2 and (tr == 'Ord' or f in ('core::cmp::min', 'core::cmp::max')):
+            return (_minmax_call(name, argv[0], argv[1]), pre)
+        # ------------------------------------------------ bool::then_some / bool::then: a conditional Option
+        NONE = ('adt', 'core::option::Option', 'None', [], None)
+        if f.startswith('core::bool::<impl bool>::then') and len(argv) == 2:
+            b = _simplify_bool(strip(argv[0]))
+            if name == 'then_some':
+                return (('ifval', b, ('opt', strip(argv[1])), NONE), pre)
+            r = self.apply_closure(argv[1], [], ctx)
+            if r and r[1] == ['eps']:
+                return (('ifval', b, ('opt', strip(r[0])), NONE), pre)
         # ------------------------------------------------ combinators on Result / Option
         if f.startswith(('core::result::Result', 'core::option::Option')):
             recv = strip(argv[0]) if argv else None
+            if isinstance(recv, tuple) and recv and recv[0] == 'ifval' and name in ('ok_or', 'ok_or_else', 'map_or', 'map_or_else', 'map', 'unwrap_or', 'unwrap_or_else') and \
+                    all(isinstance(strip(a), tuple) and (strip(a)[0] == 'opt' or strip(a) == NONE) for a in (recv[2], recv[3])):
+                # a conditional Option taken apart by a combinator: the same `if` with the combinator applied to each side
+                def ctor(fv, args):
+                    fv = strip(fv)
+                    if isinstance(fv, tuple) and fv and fv[0] == 'fnitem':
+                        if fv[1].endswith('Result::Err'):
+                            return (('adt', 'core::result::Result', 'Err', [(0, args[0])], None), ['eps'])
+                        if fv[1].endswith('Result::Ok'):
+                            return (('res', args[0]), ['eps'])
+                        if fv[1].endswith('Option::Some'):
+                            return (('opt', args[0]), ['eps'])
+                    r_ = self.apply_closure(fv, args, ctx)
+                    return (r_[0], r_[1]) if r_ else None
+
+                def side(x):
+                    x = strip(x)
+                    some = x[0] == 'opt'
+                    if name in ('ok_or', 'ok_or_else'):
+                        if some:
+                            return (('res', x[1]), ['eps'])
+                        if name == 'ok_or':
+                            return (('adt', 'core::result::Result', 'Err', [(0, strip(argv[1]))], None), ['eps'])
+                        r_ = ctor(argv[1], [])
+                        return (('adt', 'core::result::Result', 'Err', [(0, strip(r_[0]))], None), r_[1]) if r_ else None
+                    if name == 'map':
+                        if not some:
+                            return (NONE, ['eps'])
+                        r_ = ctor(argv[1], [x[1]])
+                        return (('opt', strip(r_[0])), r_[1]) if r_ else None
+                    if name in ('map_or', 'map_or_else'):
+                        if some:
+                            return ctor(argv[2], [x[1]])
+                        return (strip(argv[1]), ['eps']) if name == 'map_or' else ctor(argv[1], [])
+                    if name in ('unwrap_or', 'unwrap_or_else'):
+                        if some:
+                            return (x[1], ['eps'])
+                        return (strip(argv[1]), ['eps']) if name == 'unwrap_or' else ctor(argv[1], [])
+                    return None
+                s1, s2 = side(recv[2]), side(recv[3])
+                if s1 is not None and s2 is not None:
+                    (v1, t1), (v2, t2) = s1, s2
+                    a1 = t1 if not self.is_err_value(v1) or _ends_err(t1) else cat(t1, ['ERR', 'Err value'])
+                    a2 = t2 if not self.is_err_value(v2) or _ends_err(t2) else cat(t2, ['ERR', 'Err value'])
+                    if a1 == ['eps'] and a2 == ['eps']:
+                        return (('ifval', recv[1], v1, v2), pre)
+                    if self.is_err_value(v1):
+                        val = v2
+                    elif self.is_err_value(v2):
+                        val = v1
+                    else:
+                        val = ('ifval', recv[1], v1, v2)
+                    return (val, cat(pre, ['alt', ('if', recv[1]), [('true', a1), ('false', a2)]]))
             inner = recv[1] if isinstance(recv, tuple) and recv[0] in ('res', 'opt') else ('unwrapped', recv)
             if name == 'and_then':
                 r = self.apply_closure(argv[1], [inner], ctx)
@@ -929,6 +1001,31 @@ def _mutvars_in(x, acc):
         for y in x:
             _mutvars_in(y, acc)
     return acc
+
+
+def _minmax_call(kind, a, b):
+    """canonical min / max of two values (commutative: arguments ordered by their printed form)"""
+    x, y = sorted([strip(a), strip(b)], key=lambda v: vstr(v))
+    return ('call', kind, 'core::cmp::Ord::' + kind, [x, y], (), 'Ord', None)
+
+
+def _ifval_minmax(c, v1, v2):
+    """`if a < b { a } else { b }` (any of < <= > >=, either orientation) is min(a, b) / max(a, b)"""
+    c = strip(c)
+    if not (isinstance(c, tuple) and c and c[0] == 'bin' and c[1] in ('Lt', 'Le', 'Gt', 'Ge')):
+        return None
+    a, b = strip(c[2]), strip(c[3])
+
+    def same(x, y):
+        # a mutable variable read twice in one expression is the same value
+        return vstr(x) == vstr(y)
+    if same(v1, a) and same(v2, b):
+        kind = 'min' if c[1] in ('Lt', 'Le') else 'max'
+    elif same(v1, b) and same(v2, a):
+        kind = 'max' if c[1] in ('Lt', 'Le') else 'min'
+    else:
+        return None
+    return _minmax_call(kind, a, b)
 
 
 def _while_form(body):
